@@ -265,7 +265,25 @@ func c08Run(t *testing.T, c c08Case) (res c08Result) {
 					openSnap(o.Side, idx, false)
 					break
 				}
-				if o.Order == "newFirst" {
+				if o.Order == "openFails" {
+					// the successor terminates the old receiver, then fails to open its own reverse stream: its half of the
+					// stream ends at once; the initiator gives up both streams afterwards
+					res.classes["successor_fails_to_open"] = true
+					old.ended = true
+					nw := w.openOpt(o.Side, idx, false, true)
+					nw.ended = true
+					if o.Side == "T" {
+						w.targets[idx].connected = false
+					}
+					vfQuiesce()
+					time.Sleep(2 * time.Second)
+					vfQuiesce()
+					nw.ss.Kill()
+					old.ss.Kill()
+					vfQuiesce()
+					time.Sleep(2 * time.Second)
+					vfQuiesce()
+				} else if o.Order == "newFirst" {
 					// the old incarnation notices its cancellation only after the successor has fully registered
 					res.classes["old_cleanup_after_successor_registered"] = true
 					if old.cs != nil {
@@ -375,7 +393,7 @@ func c08Gen(t *rapid.T) c08Case {
 		idx := rapid.IntRange(0, 2).Draw(t, "idx")
 		switch {
 		case x < 30:
-			c.Ops = append(c.Ops, c08Op{K: "reopen", Side: side, I: idx, Order: rapid.SampledFrom([]string{"oldFirst", "newFirst", "newFirst"}).Draw(t, "order")})
+			c.Ops = append(c.Ops, c08Op{K: "reopen", Side: side, I: idx, Order: rapid.SampledFrom([]string{"oldFirst", "newFirst", "newFirst", "openFails"}).Draw(t, "order")})
 		case x < 50:
 			pt := rapid.SampledFrom([]string{"unregister.window", "sender.closed"}).Draw(t, "point")
 			acts := []string{"successor", "announce", "deliver", "watermark", "none"}
